@@ -46,7 +46,7 @@ func failf(fset *token.FileSet, n ast.Node, format string, a ...interface{}) {
 	panic(failure{pos + fmt.Sprintf(format, a...)})
 }
 
-var leanKeywords = map[string]bool{"class": true, "instance": true, "structure": true, "end": true, "from": true, "at": true, "do": true,
+var leanKeywords = map[string]bool{"exists": true, "class": true, "instance": true, "structure": true, "end": true, "from": true, "at": true, "do": true,
 	"then": true, "match": true, "with": true, "fun": true, "let": true, "in": true, "namespace": true, "open": true, "section": true,
 	"variable": true, "universe": true, "theorem": true, "def": true, "meta": true, "have": true, "show": true, "by": true, "if": true,
 	"else": true, "where": true, "deriving": true, "mutual": true, "import": true, "export": true, "prefix": true, "infix": true,
@@ -64,7 +64,9 @@ func id(s string) string {
 
 // API types that have a hand-written twin in Nic/Model/GoTypes.lean, and which of them embed ObjectMeta.
 var twinned = map[string]bool{"ObjectMeta": true, "Ingress": true, "VirtualServer": true, "VirtualServerRoute": true, "TransportServer": true,
-	"Policy": true, "Time": true, "LoadBalancerController": true, "IngressBackend": true, "Action": true, "Secret": true}
+	"Policy": true, "Time": true, "LoadBalancerController": true, "IngressBackend": true, "Action": true, "Secret": true, "ConfigurationProblem": true}
+// package-level helpers that are not translated but stand for a twin definition (their bodies are loops over Go maps)
+var standIn = map[string]string{"getSortedProblemKeys": "Go.sortedKeys"}
 var embedsMeta = map[string]bool{"Ingress": true, "VirtualServer": true, "VirtualServerRoute": true, "TransportServer": true, "Policy": true, "Secret": true}
 var metaFields = map[string]bool{"Namespace": true, "Name": true, "UID": true, "Generation": true, "CreationTimestamp": true, "Annotations": true, "Labels": true}
 var logPkgs = map[string]bool{"nl": true, "glog": true, "log": true, "klog": true}
@@ -344,6 +346,13 @@ func (t *tr) call(c *ast.CallExpr) string {
 		if f.Name == "len" && len(c.Args) == 1 {
 			return "(Go.len " + t.expr(c.Args[0]) + ")"
 		}
+		if f.Name == "append" && len(c.Args) == 2 && !c.Ellipsis.IsValid() {
+			return "(" + t.expr(c.Args[0]) + " ++ [" + t.expr(c.Args[1]) + "])"
+		}
+		if standIn[f.Name] != "" {
+			// a helper of the same package whose meaning is fixed by a twin in GoTypes.lean (recorded in the trusted base)
+			return "(" + standIn[f.Name] + " " + strings.Join(args(), " ") + ")"
+		}
 		if ln, ok := t.funcs[f.Name]; ok {
 			return "(" + ln + " " + strings.Join(args(), " ") + ")"
 		}
@@ -530,6 +539,21 @@ func (t *tr) stmt(s ast.Stmt, ind string, out *[]string) {
 			}
 		}
 	case *ast.AssignStmt:
+		if len(x.Lhs) == 2 && len(x.Rhs) == 1 && x.Tok == token.DEFINE {
+			// v, ok := m[k]
+			if ix, isIx := x.Rhs[0].(*ast.IndexExpr); isIx {
+				v, ok1 := x.Lhs[0].(*ast.Ident)
+				okv, ok2 := x.Lhs[1].(*ast.Ident)
+				if ok1 && ok2 {
+					t.env[v.Name], t.env[okv.Name] = "", "Bool"
+					if v.Name != "_" {
+						emit("let mut " + id(v.Name) + " := (Go.idx " + t.expr(ix.X) + " " + t.expr(ix.Index) + ")")
+					}
+					emit("let mut " + id(okv.Name) + " := (Go.has " + t.expr(ix.X) + " " + t.expr(ix.Index) + ")")
+					return
+				}
+			}
+		}
 		if len(x.Lhs) != 1 || len(x.Rhs) != 1 {
 			failf(t.fset, x, "multi-value assignment")
 		}
@@ -604,7 +628,31 @@ func (t *tr) stmt(s ast.Stmt, ind string, out *[]string) {
 		if !hasDefault {
 			emit("| _ => pure ()")
 		}
+	case *ast.BranchStmt:
+		switch x.Tok {
+		case token.CONTINUE:
+			emit("continue")
+		case token.BREAK:
+			emit("break")
+		default:
+			failf(t.fset, x, "unsupported branch statement")
+		}
 	case *ast.RangeStmt:
+		if k, isId := x.Key.(*ast.Ident); isId && k.Name == "_" && x.Value != nil && x.Tok == token.DEFINE {
+			// for _, v := range xs { ... }  with assignments to outer variables, continue, break and return in the body:
+			// Lean's `for v in xs do` in the Id monad, statement for statement
+			v := x.Value.(*ast.Ident).Name
+			saved, had := t.env[v]
+			t.env[v] = ""
+			emit("for " + id(v) + " in " + t.expr(x.X) + " do")
+			t.block(x.Body.List, ind+"  ", out)
+			if had {
+				t.env[v] = saved
+			} else {
+				delete(t.env, v)
+			}
+			return
+		}
 		// only the universally quantified check:   for i := range xs { if cond { return R } }   with no other effect;
 		// it becomes   if (List.range (len xs)).any (fun i => cond) then return R
 		if x.Value != nil || x.Key == nil || x.Tok != token.DEFINE || len(x.Body.List) != 1 {
